@@ -271,13 +271,16 @@ structure FromTo where
   nameAddr : Option NameAddr
   addrSpec : Option AddrSpec
   params : List KeyValue
+  /-- the value as received; written back literally (from_spec.go / to.go `text`; the proxy never modifies
+  a decoded From or To) -/
+  text : Bytes := []
   deriving Repr, DecidableEq
 
 def parseFromToParams (params : Bytes) : Option (List KeyValue) :=
   if params.length = 0 then some [] else mapM? parseGenericParam (split 59 params)
 
-/-- `ParseFromSpec` / `ParseTo`. -/
-def parseFromTo (s : Bytes) : Option FromTo :=
+/-- `ParseFromSpec` / `ParseTo`: the structure the text denotes. -/
+def parseFromToCore (s : Bytes) : Option FromTo :=
   match cut 60 s with
   | some (disp, _) =>
     -- a '<' exists: need a '>' that is not before it
@@ -301,12 +304,21 @@ def parseFromTo (s : Bytes) : Option FromTo :=
       | none => none
       | some as => (parseFromToParams params).map fun ps => { nameAddr := none, addrSpec := some as, params := ps }
 
-def FromTo.encode (f : FromTo) : Bytes :=
+/-- `ParseFromSpec` / `ParseTo`: the decoded structure together with the text it was decoded from. -/
+def parseFromTo (s : Bytes) : Option FromTo :=
+  (parseFromToCore s).map fun f => { f with text := s }
+
+/-- the structure printed: name-addr or addr-spec, then the parameters -/
+def FromTo.encodeCore (f : FromTo) : Bytes :=
   (match f.nameAddr, f.addrSpec with
    | some na, _ => na.encode
    | none, some a => a.encode
    | none, none => [])
   ++ encodeSemiParams f.params
+
+/-- `String()`: the received text when there is one -/
+def FromTo.encode (f : FromTo) : Bytes :=
+  if f.text ≠ [] then f.text else f.encodeCore
 
 def FromTo.getAddrSpec (f : FromTo) : Option AddrSpec :=
   match f.nameAddr, f.addrSpec with
